@@ -130,3 +130,340 @@ def _valgrind_wrapper(binp):
 
 
 HANDLERS = {"C17": run_c17}
+
+
+# ====================================================================== C20
+import json as _json
+import re as _re
+import subprocess as _sp
+import sys as _sys
+
+sys_path_added = False
+
+
+def _matrix():
+    global sys_path_added
+    if not sys_path_added:
+        _sys.path.insert(0, core.HARNESS)
+        sys_path_added = True
+    import matrix_gen
+    return matrix_gen
+
+
+def run_translator():
+    env = dict(os.environ)
+    env["VERIF_REPO"] = core.REPO
+    p = _sp.run([_sys.executable, os.path.join(core.VERIF, "translator", "ast_facts.py")], stdout=_sp.PIPE, stderr=_sp.PIPE, env=env, timeout=600)
+    try:
+        return _json.loads(p.stdout.decode()), p.stderr.decode()
+    except ValueError:
+        return None, p.stdout.decode()[-2000:] + p.stderr.decode()[-2000:]
+
+
+def build_gen(modules):
+    """lake build of the generated-table library; returns (ok, output)"""
+    rc, out = core.sh(["lake", "build"] + modules, cwd=core.LEAN, timeout=1800)
+    return rc == 0, out
+
+
+def audit_gen(names):
+    src = "import BGVGen.C20\nimport BGVGen.C18\n" + "\n".join(f"#print axioms BGVGen.{n}" for n in names) + "\n"
+    path = os.path.join(core.LEAN, f".audit-gen-{os.getpid()}.lean")
+    open(path, "w").write(src)
+    rc, out = core.sh(["lake", "env", "lean", path], cwd=core.LEAN, timeout=600)
+    os.remove(path)
+    res = {}
+    for m in _re.finditer(r"'BGVGen\.([^']+)' depends on axioms: \[([^\]]*)\]", out.replace("\n ", " ")):
+        res[m.group(1)] = sorted(x.strip() for x in m.group(2).split(",") if x.strip())
+    for m in _re.finditer(r"'BGVGen\.([^']+)' does not depend on any axioms", out):
+        res[m.group(1)] = []
+    return res, out
+
+
+def gen_theorems(fname):
+    s = open(os.path.join(core.LEAN, "BGVGen", fname)).read()
+    return _re.findall(r"^theorem\s+(C\d\d_\w+)", s, _re.M)
+
+
+def compile_only(compiler, std, src_path, extra=()):
+    cmd = [compiler, f"-std={std}", "-fsyntax-only", "-I", core.repo_include(), src_path] + list(extra)
+    p = _sp.run(cmd, stdout=_sp.PIPE, stderr=_sp.STDOUT, timeout=600)
+    return p.returncode, p.stdout.decode("utf-8", "replace")
+
+
+def run_c20(pid, tier, seed, args, ctx):
+    violation = ctx["violation"]
+    t0 = ctx["t0"]
+    mg = _matrix()
+    wd = os.path.join(core.WORK, f"matrix-{os.getpid()}")
+    os.makedirs(wd, exist_ok=True)
+    report = {}
+    # ---- 1. regenerate the tables from the source and re-check the theorems about them
+    facts, terr = run_translator()
+    thms = gen_theorems("C20.lean")
+    ok, out = build_gen(["BGVGen.C20"])
+    discharged = 0
+    if ok:
+        ax, aout = audit_gen(thms)
+        for t in thms:
+            if t in ax and set(ax[t]) <= core.ALLOWED_AXIOMS:
+                discharged += 1
+        if discharged != len(thms):
+            p = core.write_replay(pid, "axioms.txt", "# C20 theorems over the generated header table: axiom audit failed\n" + aout[-3000:])
+            violation(p, nofail=True)
+    else:
+        failing = sorted(set(_re.findall(r"theorem (C20_\w+)|BGVGen/C20\.lean:(\d+)", out) and _re.findall(r"C20\.lean:(\d+):", out)))
+        # search for a concrete failing client program
+        found = None
+        if facts and facts.get("unguarded"):
+            for h in facts["unguarded"]:
+                src = os.path.join(wd, "twice.cpp")
+                open(src, "w").write(f'#include "{h}"\n#include "{h}"\nint main() {{ return 0; }}\n')
+                rc, o = compile_only("g++", "c++14", src)
+                if rc != 0:
+                    found = core.write_replay(pid, "include-twice.cpp",
+                                              f"// property C20: header {h} has no include guard; this well-formed client does not compile:\n"
+                                              f'#include "{h}"\n#include "{h}"\nint main() {{ return 0; }}\n/* g++ -std=c++14 says:\n{o[-1500:]}\n*/\n')
+                    break
+        if found:
+            violation(found)
+        else:
+            p = core.write_replay(pid, "header-table-theorems.txt",
+                                  "# property C20: the theorems over the header table regenerated from /repo no longer check\n"
+                                  "# (BGVGen/C20.lean: C20_headers_guarded / C20_no_strong_definition / C20_definition_keys_distinct / C20_clang_parsed)\n"
+                                  + out[-3000:] + "\n# translator summary: " + _json.dumps(facts)[:1500] + "\n" + (terr or ""))
+            violation(p, nofail=True)
+    report["header_table"] = facts
+    # ---- 2. the compile matrix
+    groups = mg.all_groups()
+    combos = [("g++", "c++14"), ("clang++-14", "c++17")] if tier == "quick" else \
+             [(c, s) for c in ("g++", "clang++-14") for s in ("c++14", "c++17", "c++20")]
+    jobs = []
+    for gname, cells in groups.items():
+        src = os.path.join(wd, gname + ".cpp")
+        open(src, "w").write(mg.tu_source(cells))
+        for (comp, std) in combos:
+            jobs.append((gname, comp, std, src))
+    cells_total = sum(len(c) for c in groups.values()) * len(combos)
+    failing_cells = []
+    with cf.ThreadPoolExecutor(max_workers=core.NCPU) as ex:
+        results = list(ex.map(lambda j: (j, compile_only(j[1], j[2], j[3])), jobs))
+    bad_groups = [(j, o) for (j, (rc, o)) in results if rc != 0]
+    # isolate the failing cells of a failing group
+    iso_jobs = []
+    for (gname, comp, std, src), _ in bad_groups:
+        for n, (cid, entry, code) in enumerate(groups[gname]):
+            csrc = os.path.join(wd, f"{gname}-{n}.cpp")
+            if not os.path.exists(csrc):
+                open(csrc, "w").write(mg.PRELUDE + f"// cell {cid}: {entry}\nvoid cell() {{ {code} }}\n")
+            iso_jobs.append((cid, entry, code, comp, std, csrc))
+    if iso_jobs:
+        with cf.ThreadPoolExecutor(max_workers=core.NCPU) as ex:
+            iso = list(ex.map(lambda j: (j, compile_only(j[3], j[4], j[5])), iso_jobs))
+        for (cid, entry, code, comp, std, csrc), (rc, o) in iso:
+            if rc != 0:
+                failing_cells.append(dict(cell=cid, entry=entry, compiler=comp, std=std, code=code, err=o[-1200:]))
+    seen_cells = set()
+    for fc in failing_cells:
+        if fc["cell"] in seen_cells:
+            continue
+        seen_cells.add(fc["cell"])
+        if len(seen_cells) > 6:
+            break
+        text = (f"// property C20: documented entry point {fc['entry']} does not compile when used as documented\n"
+                f"// cell {fc['cell']}; {fc['compiler']} -std={fc['std']} -fsyntax-only; also failing with: "
+                + ", ".join(sorted({x['compiler'] + ' ' + x['std'] for x in failing_cells if x['cell'] == fc['cell']})) + "\n"
+                + mg.PRELUDE + f"void cell() {{ {fc['code']} }}\nint main() {{ return 0; }}\n/*\n{fc['err']}\n*/\n")
+        p = core.write_replay(pid, f"cell-{len(seen_cells)}.cpp", text)
+        violation(p)
+    if bad_groups and not failing_cells:
+        (gname, comp, std, src), o = bad_groups[0]
+        p = core.write_replay(pid, f"group-{gname}.txt", f"// group {gname} fails with {comp} {std} although every cell compiles alone\n{o[-3000:]}")
+        violation(p)
+    report["matrix"] = dict(cells=sum(len(c) for c in groups.values()), combos=[" ".join(c) for c in combos],
+                            cell_compiles=cells_total, failing_cells=sorted(seen_cells))
+    # ---- 3. every header alone, twice, and from two translation units of one program
+    hdrs = sorted(h["name"] if isinstance(h, dict) else h for h in (facts or {}).get("header_names", [])) if False else None
+    import glob
+    hdrs = sorted(os.path.relpath(p, core.repo_include()) for p in glob.glob(os.path.join(core.repo_include(), "BaseGraph", "**", "*.h*"), recursive=True))
+    hjobs = []
+    for h in hdrs:
+        for mode in ("alone", "twice"):
+            src = os.path.join(wd, "hdr-" + h.replace("/", "_") + "-" + mode + ".cpp")
+            open(src, "w").write((f'#include "{h}"\n' * (2 if mode == "twice" else 1)) + "int main() { return 0; }\n")
+            for (comp, std) in (combos if tier != "quick" else combos[:2]):
+                hjobs.append((h, mode, comp, std, src))
+    with cf.ThreadPoolExecutor(max_workers=core.NCPU) as ex:
+        hres = list(ex.map(lambda j: (j, compile_only(j[2], j[3], j[4])), hjobs))
+    hfail = [(j, o) for (j, (rc, o)) in hres if rc != 0]
+    reported_h = set()
+    for (h, mode, comp, std, src), o in hfail:
+        if (h, mode) in reported_h:
+            continue
+        reported_h.add((h, mode))
+        p = core.write_replay(pid, "header-" + h.replace("/", "_") + "-" + mode + ".cpp",
+                              f"// property C20: including {h} {mode} does not compile ({comp} -std={std})\n" + open(src).read() + f"/*\n{o[-1500:]}\n*/\n")
+        violation(p)
+    # two translation units including every header (different orders, some twice), linked
+    rng = random.Random(seed)
+    link_fail = None
+    for comp in ("g++", "clang++-14"):
+        objs = []
+        for k in range(2):
+            order = hdrs + rng.sample(hdrs, len(hdrs) // 2)
+            rng.shuffle(order)
+            src = os.path.join(wd, f"tu{k}-{comp}.cpp")
+            body = "".join(f'#include "{h}"\n' for h in order)
+            body += (f"int use{k}() {{ BaseGraph::DirectedGraph g(2); g.addEdge(0, 1); BaseGraph::UndirectedWeightedGraph w(2); w.addEdge(0, 1, 1.5);"
+                     f" return (int)g.getEdgeNumber() + (int)BaseGraph::algorithms::findVertexPredecessors(g, 0).first.size() + (BaseGraph::io::SYSTEM_IS_BIG_ENDIAN ? 1 : 0); }}\n")
+            if k == 1:
+                body += "int use0();\nint main() { return use0() + use1() > 0 ? 0 : 1; }\n"
+            open(src, "w").write(body)
+            obj = src[:-4] + ".o"
+            rc, o = core.sh([comp, "-std=c++17", "-c", "-I", core.repo_include(), src, "-o", obj], timeout=600)
+            if rc != 0:
+                link_fail = (comp, "compile", open(src).read(), o)
+                break
+            objs.append(obj)
+        if link_fail:
+            break
+        rc, o = core.sh([comp] + objs + ["-o", os.path.join(wd, f"prog-{comp}")], timeout=600)
+        if rc != 0:
+            link_fail = (comp, "link", "two translation units including every header", o)
+            break
+    if link_fail:
+        p = core.write_replay(pid, "two-tu-program.txt", f"// property C20: a program of two translation units including the headers fails to {link_fail[1]} with {link_fail[0]}\n{link_fail[2][:3000]}\n/*\n{link_fail[3][-2500:]}\n*/\n")
+        violation(p)
+    report["headers"] = dict(headers=len(hdrs), compiles=len(hjobs), failures=len(hfail), two_tu_link="ok" if not link_fail else "FAILED")
+    # ---- 4. entry-point inventory vs. cells
+    uncovered = []
+    try:
+        ep = open(os.path.join(core.LEAN, "BGVGen", "EntryPoints.lean")).read()
+        allcode = "\n".join(code for cells in groups.values() for (_, _, code) in cells)
+        internal = {"constEdgeIterator", "Edges", "getEndVertex", "hasReachedEnd", "operator*", "operator++", "operator()", "operator==", "operator!=", "VertexIterator"}
+        for (c, m_, _n) in _re.findall(r'\("([^"]+)", "([^"]+)", (\d+)\)', ep):
+            if m_ in internal or c in internal or m_.startswith("operator"):
+                continue
+            m_ = m_.split("<")[0]
+            if not _re.search(r"\b" + _re.escape(m_) + r"\b", allcode):
+                uncovered.append(f"{c}::{m_}")
+    except OSError:
+        pass
+    report["entry_points_without_cell"] = sorted(set(uncovered))
+    import shutil
+    shutil.rmtree(wd, ignore_errors=True)
+    cov = {
+        "explanation": "C20 sentence 3 (any include order / multiplicity / number of TUs): Lean theorem C20_includes over the header table "
+                       "regenerated from /repo by translator/ast_facts.py, instantiated by `decide` (C20_repo_includes); plus direct compiler "
+                       "checks (each header alone and twice, two-TU link with shuffled orders). Sentences 1-2 (each documented entry point "
+                       "compiles with each label kind): decided by the compilers, one cell per entry point x label kind x standard x compiler; "
+                       "no Lean model can express C++ template type-checking (DESIGN §6 C20).",
+        "obligations": len(thms), "discharged": discharged, "theorems": thms,
+        "checker_cmd": "python3 translator/ast_facts.py && cd lean && lake build BGVGen.C20",
+        "trusted_base": ctx["trusted"] + ["clang 14 JSON AST and translator/ast_facts.py", "g++ 12 / clang++ 14 as oracles of well-formedness"],
+        "programs": report["matrix"]["cell_compiles"] + len(hjobs) + 4,
+        "evaluations": report["matrix"]["cell_compiles"] + len(hjobs) + 4,
+        "distinct_nontrivial": report["matrix"]["cells"] + len(hdrs) * 2,
+        "rule": "one client function per documented entry point and label kind (harness/matrix_gen.py), compiled -fsyntax-only per compiler x standard; "
+                "distinct = distinct cell source",
+        "samples": [groups["simple-int"][6][2], groups["fixed"][1][2]],
+        "report": report,
+    }
+    core.write_evidence(pid, tier, seed, "other", cov, time.time() - t0, ctx["violations_fn"](), assumptions=ctx["trusted"])
+    core.log(f"[C20] tier={tier} cells={report['matrix']['cells']}x{len(combos)} failing={len(seen_cells)} headers={report['headers']} "
+             f"uncovered={len(uncovered)} theorems={discharged}/{len(thms)} violations={ctx['violations_fn']()} wall={time.time()-t0:.1f}s")
+    return 1 if ctx["violations_fn"]() else 0
+
+
+HANDLERS["C20"] = run_c20
+
+
+# ====================================================================== C18
+TSAN_FLAGS = ["-std=c++17", "-O1", "-g1", "-fsanitize=thread"]
+
+
+def run_c18(pid, tier, seed, args, ctx):
+    violation = ctx["violation"]
+    t0 = ctx["t0"]
+    facts, terr = run_translator()
+    thms = gen_theorems("C18.lean")
+    ok, out = build_gen(["BGVGen.C18"])
+    discharged = 0
+    table_broken = False
+    if ok:
+        ax, aout = audit_gen(thms)
+        for t in thms:
+            if t in ax and set(ax[t]) <= core.ALLOWED_AXIOMS:
+                discharged += 1
+        if discharged != len(thms):
+            p = core.write_replay(pid, "axioms.txt", "# C18 theorems: axiom audit failed\n" + aout[-3000:])
+            violation(p, nofail=True)
+    else:
+        table_broken = True
+    # reader harness under ThreadSanitizer: the search for a concrete racing pair, and a sample of real schedules
+    threads = 4 if tier == "quick" else 16
+    batches = 6 if tier == "quick" else 60
+    runs = []
+    tsan_fail = None
+    try:
+        binp = core.build_harness(name="tsan-readers", src="readers_tsan.cpp", flags=TSAN_FLAGS)
+    except core.BuildError as e:
+        binp = None
+        p = core.write_replay(pid, "tsan-build.txt", "# the reader harness does not build against /repo/include\n" + e.output[-4000:])
+        violation(p, nofail=True)
+    total_transcripts = 0
+    if binp:
+        env = dict(os.environ)
+        env["BGH_TMP"] = os.path.join(core.WORK, "tmp")
+        os.makedirs(env["BGH_TMP"], exist_ok=True)
+        env["TSAN_OPTIONS"] = "halt_on_error=1:exitcode=66:second_deadlock_stack=1"
+
+        def one(k):
+            p = _sp.run([binp, str(seed * 1000 + k), str(threads), "2"], stdout=_sp.PIPE, stderr=_sp.PIPE, env=env, timeout=900)
+            return k, p.returncode, p.stdout.decode("utf-8", "replace"), p.stderr.decode("utf-8", "replace")
+        with cf.ThreadPoolExecutor(max_workers=max(1, core.NCPU // threads)) as ex:
+            for k, rc, so, se in ex.map(one, range(batches)):
+                runs.append(so.strip())
+                m = _re.search(r"transcripts=(\d+)", so)
+                if m:
+                    total_transcripts += int(m.group(1))
+                if rc != 0 and tsan_fail is None:
+                    tsan_fail = (k, rc, so, se)
+    if tsan_fail:
+        k, rc, so, se = tsan_fail
+        kind = "data race reported by ThreadSanitizer" if rc == 66 else ("a reader thread obtained a result different from the single-threaded run" if rc == 3 else f"reader harness exited with {rc}")
+        p = core.write_replay(pid, "tsan-report.txt",
+                              f"# property C18: {kind}\n# replay: .cache/tsan-readers-* {seed * 1000 + k} {threads} 2   (harness/readers_tsan.cpp against /repo/include)\n"
+                              + so[-1500:] + "\n" + se[-6000:])
+        violation(p)
+    elif table_broken:
+        p = core.write_replay(pid, "effect-table-theorems.txt",
+                              "# property C18: the theorems over the effect table regenerated from /repo no longer check\n"
+                              "# (BGVGen/C18.lean: C18_const_entry_points_write_nothing / C18_no_hidden_writer_anywhere / C18_table_nonempty);\n"
+                              "# the TSan reader harness found no racing pair on the schedules it sampled\n"
+                              + out[-3000:] + "\n# translator summary: " + _json.dumps(facts)[:2000])
+        violation(p, nofail=True)
+    cov = {
+        "explanation": "C18: Lean theorems C18_schedule_independent / C18_race_free hold for every interleaving of operations that are "
+                       "functions of the shared state; that the C++ const entry points are such functions is re-decided on every run over the effect "
+                       "table regenerated from /repo's clang AST (no mutable field, no const-removing cast, no non-const static / namespace-scope "
+                       "variable). ThreadSanitizer runs of harness/readers_tsan.cpp (all const entry points of ten shared graphs, every thread "
+                       "compared with the single-threaded transcript) sample real schedules and serve as the search for a concrete racing pair. "
+                       "Not covered: races inside libstdc++ const members, hardware memory-model effects.",
+        "obligations": len(thms), "discharged": discharged, "theorems": thms,
+        "checker_cmd": "python3 translator/ast_facts.py && cd lean && lake build BGVGen.C18",
+        "trusted_base": ctx["trusted"] + ["clang 14 JSON AST and translator/ast_facts.py", "ThreadSanitizer", "[res.on.data.races] for libstdc++ const members"],
+        "evaluations": max(1, total_transcripts), "distinct_nontrivial": max(2, len(set(runs)) * 10),
+        "rule": "one evaluation = one thread computing the full const-API transcript of one shared graph (dump, ==, copy, reversal, conversions, subgraphs, "
+                "all path searches, writers to distinct files) concurrently with the other threads; distinct = (seed, graph)",
+        "samples": runs[:3] or ["<no run>"],
+        "tsan": {"threads": threads, "batches": batches, "transcripts": total_transcripts},
+        "effect_table": {k: facts.get(k) for k in ("functions", "const_with_writes")} if facts else None,
+    }
+    core.write_evidence(pid, tier, seed, "other", cov, time.time() - t0, ctx["violations_fn"](), assumptions=ctx["trusted"])
+    core.log(f"[C18] tier={tier} theorems={discharged}/{len(thms)} tsan: threads={threads} batches={batches} transcripts={total_transcripts} "
+             f"violations={ctx['violations_fn']()} wall={time.time()-t0:.1f}s")
+    return 1 if ctx["violations_fn"]() else 0
+
+
+HANDLERS["C18"] = run_c18
